@@ -2,6 +2,7 @@
 import numpy as np
 from hypothesis import strategies as st
 
+from ..fuzz import fuzzed
 from ..core import Obligation, Out
 from .. import cat, rtools
 from ..strat import uni, logu
@@ -15,7 +16,7 @@ META = dict(
          'on the public call; non-trivial = ul != ur or gl != gr (or JWL); distinct = hash of the full case',
     assumptions=['trapezoid quadrature on two incommensurate grids (2000/2999 cells) with every discontinuous cell split at the '
                  'jump located to 2^-48 of the cell; a violation must show on both grids',
-                 'general-EOS solver values are interpolated on its internal grid: tolerance 2e-3 there, 1e-4 for the analytic solver'])
+                 'general-EOS solver values are interpolants on its internal grid: fields are read at the internal nodes and the tolerance is the one-cell bound h TV / 2 of the trapezoid rule (computed per case) + 3e-4; 1e-4 for the analytic solver'])
 
 
 def conservation(o, s, case, a, b, tol, regime):
@@ -74,19 +75,26 @@ def gen_case(draw):
     return c
 
 
-def plain_conservation(o, s, case, a, b, tol, regime, n=24000):
-    """general-EOS solver: every public call repeats the whole construction (ODE tables, ~1 s) and the
-    returned values are linear interpolants on its internal grid, so one fine trapezoid call is used
-    (no bisection: there is no true discontinuity in an interpolant)."""
+def plain_conservation(o, s, case, a, b, tol, regime, n=None):
+    """general-EOS solver: every public call repeats the whole construction (ODE tables, ~1 s) and the returned values are
+    linear interpolants on its internal grid linspace(xmin, xmax, num_x_pts).  The fields are therefore read AT the internal
+    nodes (where the interpolant is the solver's own value, so rho, u, p, e are mutually consistent) and integrated with the
+    trapezoid rule; for node values of a function of bounded variation |integral - trapezoid| <= h TV / 2, which is the
+    documented one-cell resolution of every shock and contact.  The tolerance is that bound (from the measured total variation
+    of each conserved density) plus `tol` for the smooth part (ODE tables of the fans)."""
     t = case['t']
     P = case['params']
-    x = np.linspace(a, b, n + 1)
+    nodes = np.linspace(P['xmin'], P['xmax'], int(P['num_x_pts']))
+    x = nodes[(nodes >= a) & (nodes <= b)]
+    h = nodes[1] - nodes[0]
+    a, b = x[0], x[-1]
     F = rtools.sample(s, x, t)
     got = rtools.integrate_conserved(x, F, [])
     Fa, Fb = F[:, :1], F[:, -1:]
     o.close('left end is the undisturbed left state', Fa[:3, 0], [P['rl'], P['ul'], P['pl']], 1e-9, atol=1e-12, regime=regime)
     o.close('right end is the undisturbed right state', Fb[:3, 0], [P['rr'], P['ur'], P['pr']], 1e-9, atol=1e-12, regime=regime)
-    Ua, Ub = rtools.conserved(Fa)[:, 0], rtools.conserved(Fb)[:, 0]
+    U = rtools.conserved(F)
+    Ua, Ub = U[:, 0], U[:, -1]
     fa, fb = rtools.fluxes(Fa)[:, 0], rtools.fluxes(Fb)[:, 0]
     want = Ua * (P['xd0'] - a) + Ub * (b - P['xd0']) + t * (fa - fb)
     ca = np.sqrt(abs(fa[1] - Ua[1] ** 2 / Ua[0]) / Ua[0] + 1e-300)
@@ -95,9 +103,12 @@ def plain_conservation(o, s, case, a, b, tol, regime, n=24000):
                       Ua[0] * (abs(Fa[1, 0]) + ca) * (P['xd0'] - a) + Ub[0] * (abs(Fb[1, 0]) + cb) * (b - P['xd0']),
                       abs(Ua[2]) * (P['xd0'] - a) + abs(Ub[2]) * (b - P['xd0'])])
     err = (got - want) / scale
+    tv = np.sum(np.abs(np.diff(U, axis=1)), axis=1)
+    res = 0.5 * h * tv / scale * 1.05
     for k, name in enumerate(('mass', 'momentum', 'energy')):
-        o.close('integral conservation of ' + name, err[k], 0.0, 0.0, atol=tol, regime=regime)
+        o.close('integral conservation of ' + name, err[k], 0.0, 0.0, atol=tol + res[k], regime=regime, one_cell_resolution_bound=float(res[k]))
     o.info['err'] = err.tolist()
+    o.info['resolution_bound'] = res.tolist()
 
 
 def check_gen(case):
@@ -107,7 +118,7 @@ def check_gen(case):
     half = case['span'] * case['margin']
     a, b = P['xd0'] - half, P['xd0'] + half
     o.label(case['pattern'], 'ul!=ur' if P['ul'] != P['ur'] else 'ul==ur', 'gl!=gr' if P['gl'] != P['gr'] else 'gl==gr')
-    plain_conservation(o, s, case, a, b, 2e-3, case['pattern'])
+    plain_conservation(o, s, case, a, b, 3e-4, case['pattern'])
     o.nontrivial = P['ul'] != P['ur'] or P['gl'] != P['gr']
     return o
 
@@ -130,7 +141,7 @@ def check_jwl(case):
     span = float(np.max(np.abs(s.Vregs))) * case['t']
     half = span * case['margin']
     o.label('JWL-' + str(s.soln_type))
-    plain_conservation(o, s, case, P['xd0'] - half, P['xd0'] + half, 2e-3, 'JWL-' + str(s.soln_type))
+    plain_conservation(o, s, case, P['xd0'] - half, P['xd0'] + half, 3e-4, 'JWL-' + str(s.soln_type))
     o.nontrivial = True
     return o
 
@@ -141,3 +152,5 @@ OBLIGATIONS = [
     Obligation('geneos-jwl-conservation', jwl_case(), check_jwl, quick=16, thorough=200, min_per_shard=1),
 ]
 OBLIGATIONS[1].cost = OBLIGATIONS[2].cost = 50.0
+# coverage-guided supplement (atheris / libFuzzer over the same strategy and oracle; see vp/fuzz.py)
+OBLIGATIONS.append(fuzzed([o for o in OBLIGATIONS if o.name == 'igeos-conservation'][0], quick=0, thorough=8000, modules=('exactpack.solvers.riemann',), min_per_shard=1000))
